@@ -370,6 +370,7 @@ async fn run_case(program: Arc<Program>, cmds: &[Cmd]) -> Outcome {
     }
     let mut marks = vec![trace.lock().len()];
     let mut failed = false;
+    let mut ended = false;
     let mut problem = None;
     let mut values = vec![];
 
@@ -448,6 +449,7 @@ async fn run_case(program: Arc<Program>, cmds: &[Cmd]) -> Outcome {
             done = &mut handle => {
                 // the agent stopped on its own: a handler failed
                 failed = true;
+                ended = true;
                 if std::env::var("C06_DEBUG").is_ok() { eprintln!("agent ended: {:?}", done); }
                 if let Ok(Ok(())) = done { problem = Some("the agent task ended without an error while commands were outstanding".into()); }
                 break;
@@ -501,13 +503,10 @@ async fn run_case(program: Arc<Program>, cmds: &[Cmd]) -> Outcome {
     // stop: drop every sender
     drop(vtx);
     drop(mtx);
-    let res = tokio::time::timeout(Duration::from_secs(10), &mut handle).await;
+    let res = if ended { Ok(Ok(Err(()))) } else { tokio::time::timeout(Duration::from_secs(10), &mut handle).await.map(|r| r.map(|x| x.map_err(|e| { if std::env::var("C06_DEBUG").is_ok() { eprintln!("agent ended: {:?}", e); } }))) };
     match res {
         Ok(Ok(Ok(()))) => {}
-        Ok(Ok(Err(e))) => {
-            if std::env::var("C06_DEBUG").is_ok() { eprintln!("agent ended: {:?}", e); }
-            failed = true
-        }
+        Ok(Ok(Err(()))) => failed = true,
         Ok(Err(e)) => problem = Some(format!("agent task panicked: {}", e)),
         Err(_) => {
             problem = Some("the agent did not stop".into());
@@ -759,7 +758,9 @@ fn observed_tops(p: &Program, cmds: &[Cmd], out: &Outcome) -> Vec<(bool, H)> {
 
 fn main() {
     let args = parse_args();
-    silence_panics();
+    if std::env::var("SHOW_PANICS").is_err() {
+        silence_panics();
+    }
     let mut rng = Rng::new(args.seed ^ 0xc06);
     let mut w = CaseWriter::new(
         "From SwimV Require Import Model.Handlers.\nOpen Scope N_scope.",
